@@ -10,7 +10,7 @@ META = dict(
     property_id="C23", level="model_checking", design_ref="DESIGN.md §4 C23",
     technique="TLA+ state machine of a master and two heavyweight checkouts (bound commit split into CheckBound / "
               "BuildRevision / SetMasterTip / SetLocalTip with a fault after any phase; commit --local, commits in the "
-              "master, update, pull, bind, unbind) model-checked by TLC with the clauses of C23 as invariants; a "
+              "master and in a third branch, update, pull - also pull -r N from the third branch -, bind, unbind) model-checked by TLC with the clauses of C23 as invariants; a "
               "transition cover of TLC's state graph and TLC-simulated behaviours replayed on real on-disk heavyweight "
               "checkouts with transport faults injected inside Commit._update_branches; observations judged by TLC",
     level_text="TLC explores every sequence of the actions over a bounded number of revisions and proves on the model: a "
@@ -29,14 +29,14 @@ META = dict(
 
 INV = ("LawsHold", "InStepAlways", "Composite", "TreeFollows")
 WIT = ("WitnessMasterAhead", "WitnessRefusedDiverged", "WitnessUpdateKeepsLocalWork", "WitnessPullPartial",
-       "WitnessLocalAheadByLocalCommit")
+       "WitnessLocalAheadByLocalCommit", "WitnessPullStop")
 REFUSALS = ("BoundBranchOutOfDate", "OutOfDateTree", "DivergedBranches")
 
 
-def cfg(maxrev, cs, invariants, unbindable=None):
+def cfg(maxrev, cs, invariants, unbindable=None, third=True):
     sett = lambda xs: "{%s}" % ", ".join('"%s"' % c for c in xs)
-    return ("SPECIFICATION Spec\nCONSTANTS\n  MaxRev = %d\n  Cs = %s\n  Unbindable = %s\n" % (
-        maxrev, sett(cs), sett(cs if unbindable is None else unbindable))
+    return ("SPECIFICATION Spec\nCONSTANTS\n  MaxRev = %d\n  Cs = %s\n  Fs = %s\n  Unbindable = %s\n" % (
+        maxrev, sett(cs), sett(["F"] if third else []), sett(cs if unbindable is None else unbindable))
             + "".join("INVARIANT %s\n" % i for i in invariants))
 
 
@@ -131,7 +131,7 @@ def template(workdir, cs):
     from breezy import controldir
     key = (os.getpid(), tuple(cs), workdir)
     if key not in _TEMPLATES:
-        t = os.path.join(workdir, "template-%d" % os.getpid())
+        t = os.path.join(workdir, "template-%d-%s" % (os.getpid(), "".join(cs)))
         shutil.rmtree(t, ignore_errors=True)
         os.makedirs(t)
         fmt = controldir.format_registry.make_controldir("2a")
@@ -140,6 +140,7 @@ def template(workdir, cs):
         mt.commit("r1", rev_id=b"r1")
         for c in cs:
             mt.branch.create_checkout(t + "/" + c, lightweight=False)
+        mt.controldir.sprout(t + "/F")                     # the third branch: independent, never bound
         _TEMPLATES[key] = t
     return _TEMPLATES[key]
 
@@ -171,9 +172,9 @@ class Real:
         from breezy.workingtree import WorkingTree
         o = {"tip": {}, "bound": {}, "basis": {}, "pend": {}, "out": out, "np": []}
         opened = {}
-        for b in ["M"] + self.cs:
-            if b == "M":
-                br = Branch.open(self.base + "/M")
+        for b in ["M", "F"] + self.cs:
+            if b in ("M", "F"):
+                br = Branch.open(self.base + "/" + b)
             else:
                 wt = WorkingTree.open(self.base + "/" + b)
                 br = wt.branch
@@ -227,6 +228,10 @@ class Real:
                 mt.update()
                 self.add_file(path, mt, self.nrev + 1, "M")
                 mt.commit("commit in master", rev_id=new)
+            elif op == "commitF":
+                ft = WorkingTree.open(path)
+                self.add_file(path, ft, self.nrev + 1, "F")
+                ft.commit("commit in the third branch", rev_id=new)
             elif op in ("commit", "commitLocal", "commitUnbound"):
                 wt = WorkingTree.open(path)
                 self.add_file(path, wt, self.nrev + 1, c)
@@ -240,7 +245,7 @@ class Real:
                 WorkingTree.open(path).update()
             elif op == "pull":
                 src = Branch.open(self.w.url("M") if a["src"] == "M" else self.base + "/" + a["src"])
-                WorkingTree.open(path).pull(src)
+                WorkingTree.open(path).pull(src, stop_revision=(b"r%d" % a["stop"]) if a.get("stop") else None)
             elif op == "bind":
                 WorkingTree.open(path).branch.bind(Branch.open(self.w.url("M")))
             elif op == "unbind":
@@ -280,7 +285,7 @@ def execute(cs, acts, base):
             out, injected = rw.act(a)
             obs.append(rw.observe(out, a["c"]))
             # the action as it really happened: the phase at which the fault struck (none if the plan never fired)
-            done.append({"op": a["op"], "c": a["c"], "src": a.get("src", ""),
+            done.append({"op": a["op"], "c": a["c"], "src": a.get("src", ""), "stop": a.get("stop", 0),
                          "fault": injected if (injected and out == "fault") else "",
                          "note": "swallowed" if (injected and out == "ok") else ("not-injected" if (a.get("plan") and not injected and out == "ok") else "")})
             if done[-1]["note"] == "not-injected":
@@ -349,7 +354,7 @@ def acts_of(states):
     for _, st in states[1:]:
         if st["pc"]["ph"] == "idle":
             a = st["last"]["a"]
-            out.append({"op": a["op"], "c": a["c"], "src": a["src"], "fault": a["fault"]})
+            out.append({"op": a["op"], "c": a["c"], "src": a["src"], "fault": a["fault"], "stop": a["stop"]})
     return out
 
 
@@ -413,12 +418,23 @@ def cover_walks(edges, inits, max_len, rng):
         yield walk
 
 
+def A(op, c, src="", stop=0):
+    return {"op": op, "c": c, "src": src, "fault": "", "stop": stop}
+
+
+DIRECTED = [  # pull -r N from the third branch (always replayed)
+    [A("commitF", "F"), A("commitF", "F"), A("pull", "C1", "F", 2), A("pull", "C2", "M"), A("pull", "C1", "F")],
+    [A("commitF", "F"), A("commitF", "F"), A("commitF", "F"), A("pull", "C1", "F", 3), A("commit", "C1"), A("pull", "C2", "F", 2),
+     A("update", "C2")],
+    [A("commitF", "F"), A("commitF", "F"), A("commitLocal", "C1"), A("pull", "C1", "F", 2), A("update", "C1"), A("pull", "C1", "F", 2)],
+    [A("commitF", "F"), A("commitF", "F"), A("unbind", "C1"), A("pull", "C1", "F", 2), A("bind", "C1"), A("pull", "C1", "F")],
+]
 SWEEP = [  # pre-histories for the exhaustive fault sweep of one bound commit by C1
     [],
-    [{"op": "commitM", "c": "M", "src": "", "fault": ""}, {"op": "update", "c": "C1", "src": "", "fault": ""}],
-    [{"op": "commitLocal", "c": "C1", "src": "", "fault": ""}, {"op": "commitM", "c": "M", "src": "", "fault": ""},
-     {"op": "update", "c": "C1", "src": "", "fault": ""}],           # a merge commit: local work pending
-    [{"op": "commit", "c": "C2", "src": "", "fault": ""}, {"op": "pull", "c": "C1", "src": "M", "fault": ""}],
+    [{"op": "commitM", "c": "M", "src": "", "fault": "", "stop": 0}, {"op": "update", "c": "C1", "src": "", "fault": "", "stop": 0}],
+    [{"op": "commitLocal", "c": "C1", "src": "", "fault": "", "stop": 0}, {"op": "commitM", "c": "M", "src": "", "fault": "", "stop": 0},
+     {"op": "update", "c": "C1", "src": "", "fault": "", "stop": 0}],           # a merge commit: local work pending
+    [{"op": "commit", "c": "C2", "src": "", "fault": "", "stop": 0}, {"op": "pull", "c": "C1", "src": "M", "fault": "", "stop": 0}],
 ]
 
 
@@ -431,29 +447,41 @@ def run(ctx):
     for w in WIT:
         tlc.check(ctx, "BoundBranchMC", cfg_text=cfg(3, cs, (w,)), expect_violation=w, label="witness " + w, workers=2)
     if not q:
-        tlc.check(ctx, "BoundBranchMC", cfg_text=cfg(4, cs, INV), label="MC 4 revisions", workers=16, timeout=3000)
-    nodes, edges, inits, res = tlc.graph(ctx, "BoundBranchMC", cfg_text=cfg(3, cs, INV, ["C1"]), workers=16,
-                                         label="MC + graph 3 revisions, C1 unbindable")
-    paths = list(cover_walks(edges, inits, 80, ctx.rng))
-    ctx.cov["graph"] = {"nodes": len(nodes), "edges": len(edges), "cover_walks": len(paths), "walk_steps": sum(len(p) - 1 for p in paths)}
-    if q:
-        ctx.rng.shuffle(paths)
-        paths = paths[:45]
-    parsed = {}
-
-    def st(nid):
-        if nid not in parsed:
-            parsed[nid] = to_py(parse_state(nodes[nid]))
-        return parsed[nid]
+        tlc.check(ctx, "BoundBranchMC", cfg_text=cfg(4, cs, INV, third=False), label="MC 4 revisions, two checkouts",
+                  workers=16, timeout=3000)
+        tlc.check(ctx, "BoundBranchMC", cfg_text=cfg(4, ["C1"], INV), label="MC 4 revisions, one checkout + third branch",
+                  workers=16, timeout=3000)
     jobs = []
-    for p in paths:
-        acts = acts_of([(a, st(n)) for a, n in p])
-        if acts:
+    # two state graphs are covered edge by edge: two checkouts without the third branch, one checkout with it
+    for label, gcs, third, take in (("two checkouts, C1 unbindable", cs, False, 35), ("one checkout + third branch", ["C1"], True, 20)):
+        nodes, edges, inits, res = tlc.graph(ctx, "BoundBranchMC", cfg_text=cfg(3, gcs, INV, ["C1"], third), workers=16,
+                                             label="MC + graph 3 revisions, " + label)
+        paths = list(cover_walks(edges, inits, 80, ctx.rng))
+        info = {"config": label, "nodes": len(nodes), "edges": len(edges), "cover_walks": len(paths),
+                "walk_steps": sum(len(p) - 1 for p in paths)}
+        parsed = {}
+
+        def st(nid):
+            if nid not in parsed:
+                parsed[nid] = to_py(parse_state(nodes[nid]))
+            return parsed[nid]
+        n0 = len(jobs)
+        ctx.rng.shuffle(paths)
+        extra = 15 if (q and third) else 0          # quick: besides the random walks, some that pull -r N
+        for k, p in enumerate(paths):
+            acts = acts_of([(a, st(n)) for a, n in p])
+            if not acts:
+                continue
+            if q and k >= take:
+                if not extra or not any(a["stop"] for a in acts):
+                    continue
+                extra -= 1
             for a in acts:
                 if a["fault"]:
                     a["j"] = 1 if a["fault"] == "localset" else 1 + ctx.rng.randrange(4)
-            jobs.append(acts)
-    ctx.cov["graph"]["replayed_paths"] = len(jobs)
+            jobs.append((gcs, acts))
+        info["replayed_paths"] = len(jobs) - n0
+        ctx.cov.setdefault("graphs", []).append(info)
     # ---- E3: longer random behaviours of the model
     behs, sres = tlc.simulate(ctx, "BoundBranchMC", cfg_text=cfg(6, cs, INV), num=40 if q else 300, depth=30,
                               seed=ctx.seed + 1, label="simulate 6 revisions")
@@ -466,13 +494,14 @@ def run(ctx):
             for a in acts:
                 if a["fault"]:
                     a["j"] = 1 if a["fault"] == "localset" else 1 + ctx.rng.randrange(4)
-            jobs.append(acts)
+            jobs.append((cs, acts))
             nsim += 1
     if not nsim:
         ctx.machinery("no simulated behaviours")
     ctx.cov["simulated_behaviours"] = nsim
+    jobs += [(cs, [dict(a) for a in acts]) for acts in DIRECTED]
     # ---- the fault sweep: every transport operation of the tip-update phase fails once
-    commit_c1 = {"op": "commit", "c": "C1", "src": "", "fault": ""}
+    commit_c1 = {"op": "commit", "c": "C1", "src": "", "fault": "", "stop": 0}
     sweeps = SWEEP[:2] if q else SWEEP
     core.fork_map(ctx, count_phase_ops, [(i, cs, pre + [commit_c1]) for i, pre in enumerate(sweeps)])
     counts = {d["idx"]: d["ops"] for d in ctx.collected}
@@ -484,13 +513,13 @@ def run(ctx):
             ctx.machinery("fault sweep %d: tip-update phase not recognised in %s" % (i, ops))
         ctx.cov.setdefault("phase_ops", []).append({"pre": [a["op"] for a in pre], "ops": len(ops),
                                                     "stages": {s: sum(1 for o in ops if o[2] == s) for s in ("built", "masterset", "localset")}})
-        follow = [{"op": "update", "c": "C1", "src": "", "fault": ""}, dict(commit_c1)]      # and recover
+        follow = [{"op": "update", "c": "C1", "src": "", "fault": "", "stop": 0}, dict(commit_c1)]      # and recover
         for k in range(1, len(ops) + 1):
-            jobs.append(pre + [dict(commit_c1, plan=["index", k])] + follow)
+            jobs.append((cs, pre + [dict(commit_c1, plan=["index", k])] + follow))
             nfault += 1
     ctx.cov["fault_points"] = nfault
     # ---- replay, judged by TLC
-    core.fork_map(ctx, replay_paths, [(i, cs, acts) for i, acts in enumerate(jobs)])
+    core.fork_map(ctx, replay_paths, [(i, jcs, acts) for i, (jcs, acts) in enumerate(jobs)])
     rows = ctx.collected
     if len(rows) != len(jobs):
         ctx.machinery("replayed %d of %d behaviours" % (len(rows), len(jobs)))
@@ -504,11 +533,11 @@ def run(ctx):
     ctx.cov["real_steps"] = steps
     ctx.cov["faults_swallowed_by_the_code"] = swallowed
     for r in (rows[0], rows[len(rows) // 2], rows[-1]):
-        ctx.sample({"acts": [(a["op"], a["c"], a["src"], a["fault"]) for a in r["c"]["acts"]],
+        ctx.sample({"acts": [(a["op"], a["c"], a["src"], a["fault"] or a["stop"] or "") for a in r["c"]["acts"]],
                     "observed": [(o["tip"], o["out"]) for o in r["impl"]]})
-    for row, failed, drift in table.judge(ctx, "BoundBranchTrace", [{"c": {"cs": r["c"]["cs"], "acts": [{k: a[k] for k in ("op", "c", "src", "fault")} for a in r["c"]["acts"]]},
+    for row, failed, drift in table.judge(ctx, "BoundBranchTrace", [{"c": {"cs": r["c"]["cs"], "acts": [{k: a[k] for k in ("op", "c", "src", "fault", "stop")} for a in r["c"]["acts"]]},
                                                                 "impl": r["impl"]} for r in rows], chunk=3000):
-        acts = [(a["op"], a["c"], a["src"], a["fault"]) for a in row["c"]["acts"]]
+        acts = [(a["op"], a["c"], a["src"], a["fault"] or a["stop"] or "") for a in row["c"]["acts"]]
         for f in failed:
             law, op = f.split("@")
             ctx.violation("%s:%s" % (law, op), "law %s fails at a %s step of %s: observed %s" % (
@@ -520,7 +549,8 @@ def run(ctx):
             ctx.drift("observed worlds differ from the model along %s" % (acts,), row)
     ctx.cov["exhaustive"] = not q
     ctx.rule("behaviours = transition cover of TLC's state graph of BoundBranchMC with 3 revisions (every edge = one "
-             "action or commit phase in one abstract state; quick: 220 random paths of the cover), TLC-simulated "
+             "action or commit phase in one abstract state) for two checkouts and for one checkout plus a third branch "
+             "with pull -r N (quick: 35 + 20 random walks of the covers), TLC-simulated "
              "behaviours with 6 revisions, and for %d pre-histories a bound commit with each transport operation of "
              "Commit._update_branches failed once, followed by update + commit; distinct = action sequence" % len(sweeps))
 
@@ -532,7 +562,7 @@ def replay(ctx, rep):
     acts = [dict(a, plan=(["phase", a["fault"], 1] if a.get("fault") else None)) for a in row["c"]["acts"]]
     done, obs, _ = execute(row["c"]["cs"], acts, os.path.join(ctx.workdir, "replay"))
     print(json.dumps({"acts": done, "observed_now": obs, "recorded": row["impl"]}, indent=1))
-    rows = [{"c": {"cs": row["c"]["cs"], "acts": [{k: a[k] for k in ("op", "c", "src", "fault")} for a in done]}, "impl": obs}]
+    rows = [{"c": {"cs": row["c"]["cs"], "acts": [{k: a[k] for k in ("op", "c", "src", "fault", "stop")} for a in done]}, "impl": obs}]
     for _, failed, drift in table.judge(ctx, "BoundBranchTrace", rows):
         for f in failed:
             law, op = f.split("@")
